@@ -53,12 +53,13 @@ func init() {
 	add("VH_C13_RoundTrip", "thorough", 6, 3, 0, 1, 2, 1, 2, 1, rt, nil)
 	add("VH_C13_Fault", "thorough", 4, 2, 1, 1, 4, 1, 2, 1, ft, map[string]int{"MAXFAIL": 16})
 	add("VH_C13_Fault", "thorough", 4, 3, 0, 2, 4, 0, 0, 2, ft, map[string]int{"MAXFAIL": 16})
-	for ila := 0; ila < 2; ila++ {
+	for _, mc := range [][3]int{{0, 0, 0}, {0, 16, 0}, {1, 0, 1}, {1, 64, 1}, {0, 7, 1}} { // ila, page, thorough-only
+		ila, page := mc[0], mc[1]
 		p.Harnesses = append(p.Harnesses, HSpec{Prop: "C13", Pkg: L, Dir: "c13", Func: "VH_C13_ManyChunks", Cfg: func(c *gossa.Config, thorough bool) {
 			cfg(c, thorough)
 			c.MaxSteps = 400_000_000
-		}, Label: fmt.Sprintf("[ila=%d]", ila), Tier: map[int]string{0: "", 1: "thorough"}[ila],
-			Params: map[string]int{"CHUNKS": 300, "PAGE": 0, "ILA": ila, "RES": 2}, Reach: []string{"many/done"}})
+		}, Label: fmt.Sprintf("[ila=%d page=%d]", ila, page), Tier: map[int]string{0: "", 1: "thorough"}[mc[2]],
+			Params: map[string]int{"CHUNKS": 300, "PAGE": page, "ILA": ila, "RES": 2}, Reach: []string{"many/done"}})
 	}
 	for op := 0; op < 3; op++ {
 		p.Harnesses = append(p.Harnesses, HSpec{Prop: "C13", Pkg: L, Dir: "c13", Func: "VH_C13_WriteBuffer", Aux: true, Cfg: cfg, Label: fmt.Sprintf("[op=%d]", op),
